@@ -323,3 +323,5 @@ _add6("C19", "mxConn.Usable answers false in each of the worlds 'client nil', 'c
 _add6("C03", "Round 12: no assignment to a field of the session that releaseLimits reads reaches a call of releaseLimits in the same function (R5e); getDelivery starts a target only when the table of open deliveries has no entry for it (R6b).", ref=", §R.21")
 _add6("C11", "Round 12: the session's permits are given back before the state their keys are built from is cleared (C03.R5e as R3e); with a limit configured every successful exit of a limiter method that operates on the limiter's channel has passed the channel operation (R13); a Take / TakeContext that asks a wrapped limiter reports its answer – no success after an inner refusal, no failure after an inner grant without a Release of that limiter (R14).", ref=", §R.21")
 _add6("C16", "Round 12: every successful path through Session.Mail that does not start the delivery assigns the remembered reply (R16); SMTPError.Temporary is computed from the basic code, never from the enhanced code (R17).", ref=", §R.21")
+_add6("C02", "Round 12: every way out of tryDelivery passes the removal of the message from the spool or the scheduling of the next attempt (R16).", ref=", §R.21")
+_add6("C01", "Round 12: every way out of tryDelivery passes the removal of the message from the spool or the scheduling of the next attempt (C02.R16 as R15).", ref=", §R.21")
